@@ -53,6 +53,10 @@ struct Plan {
     /// recv: the connection's I/O timeout (0 = one hour); idle gaps beyond it occur between frames
     #[serde(default)]
     conn_timeout_ms: u64,
+    /// recv with a connection timeout: > 0 = the caller gives a receive call up (drops its future) after this
+    /// long without a result and calls again; on these links that only happens while the peer is idle
+    #[serde(default)]
+    cancel_ms: u64,
     #[serde(default)]
     client: EndCfg,
     #[serde(default)]
@@ -157,7 +161,7 @@ impl Scenario for C14 {
             let msgs: Vec<Msg> = (0..n)
                 .map(|_| Msg { n_atoms: r.range(2, 6) as u32, long_len: r.range(55_000, 65_535) as u32, long_count: r.range(28, 34) as u32, carry: r.range(0, 12) as u32, seed: r.next_u64(), form: "hdr".to_string(), gap_ms: 0 })
                 .collect();
-            let p = Plan { kind: "recv".to_string(), msgs, universe: 60, conn_timeout_ms: 0, client: EndCfg::default(), server: EndCfg::default(), salt: r.next_u64() };
+            let p = Plan { kind: "recv".to_string(), msgs, universe: 60, conn_timeout_ms: 0, cancel_ms: 0, client: EndCfg::default(), server: EndCfg::default(), salt: r.next_u64() };
             return serde_json::to_value(p).unwrap();
         }
         let long = !send && r.chance(1, 25);
@@ -185,7 +189,7 @@ impl Scenario for C14 {
                 gap_ms: 0,
             })
             .collect();
-        let mut p = Plan { kind: if send { "send" } else { "recv" }.to_string(), msgs, universe: if long { 1_000_000 } else { *r.pick(&[8u32, 40, 400, 3000]) }, conn_timeout_ms: 0, client: end(r), server: end(r), salt: r.next_u64() };
+        let mut p = Plan { kind: if send { "send" } else { "recv" }.to_string(), msgs, universe: if long { 1_000_000 } else { *r.pick(&[8u32, 40, 400, 3000]) }, conn_timeout_ms: 0, cancel_ms: 0, client: end(r), server: end(r), salt: r.next_u64() };
         if long {
             p.client = EndCfg::default();
             p.server = EndCfg::default();
@@ -200,6 +204,9 @@ impl Scenario for C14 {
                 if r.chance(1, 2) {
                     m.gap_ms = (p.conn_timeout_ms * *r.pick(&[1u64, 2, 4])) as u32 + r.below(40) as u32;
                 }
+            }
+            if r.chance(1, 2) {
+                p.cancel_ms = *r.pick(&[50u64, 100, 170]);
             }
         }
         serde_json::to_value(p).unwrap()
@@ -232,7 +239,7 @@ impl Scenario for C14 {
             components_stubbed: &["TCP (SimNet)", "EPMD (stub)", "remote node: sender-side atom cache model + independent header writer/reader"],
             assumptions: &["any slot assignment by the sender conforms (the receiver must follow the header); real OTP picks the slot by atom hash", "the order of atoms in this library's own header is seeded through hook H11"],
             fault_prefixes: &["fault.", "net."],
-            expected_probes: &["probe.c14.old_entry_referenced", "probe.c14.slot_overwritten", "probe.c14.segment_above_zero", "probe.c14.segment_seven", "probe.c14.position_differs_from_slot", "probe.c14.long_atoms_even_count", "probe.c14.long_atoms_odd_count", "probe.c14.own_header_read", "probe.c14.own_header_long_atoms", "probe.c14.echo_decoded", "probe.c14.too_many_atoms_rejected", "probe.c14.header_255_atoms", "probe.c14.failed_frame_with_intact_header", "probe.c14.long_history", "probe.c14.over_64_mib_of_atom_text", "probe.c06.idle_timeout_retried"],
+            expected_probes: &["probe.c14.old_entry_referenced", "probe.c14.slot_overwritten", "probe.c14.segment_above_zero", "probe.c14.segment_seven", "probe.c14.position_differs_from_slot", "probe.c14.long_atoms_even_count", "probe.c14.long_atoms_odd_count", "probe.c14.own_header_read", "probe.c14.own_header_long_atoms", "probe.c14.echo_decoded", "probe.c14.too_many_atoms_rejected", "probe.c14.header_255_atoms", "probe.c14.failed_frame_with_intact_header", "probe.c14.long_history", "probe.c14.over_64_mib_of_atom_text", "probe.c06.idle_timeout_retried", "probe.c06.receive_cancelled_while_idle"],
         }
     }
 }
@@ -308,7 +315,7 @@ async fn recv_dir(w: &Arc<World>, p: &Plan) {
         }
         tokio::time::sleep(Duration::from_millis(1)).await;
     };
-    let results: Vec<Got> = if p.conn_timeout_ms > 0 { crate::scen::c06::receive_all_retrying_idle_timeouts(w, &mut conn, n + 1).await } else { receive_all(&mut conn, n + 1).await };
+    let results: Vec<Got> = if p.conn_timeout_ms > 0 { crate::scen::c06::receive_all_retrying(w, &mut conn, n + 1, p.cancel_ms).await } else { receive_all(&mut conn, n + 1).await };
     for (i, r) in results.iter().enumerate() {
         w.ev(format!("recv {} -> {}", i, if r.is_ok() { "Ok".to_string() } else { format!("Err {}", r.as_ref().unwrap_err().chars().take(60).collect::<String>()) }));
     }
